@@ -62,19 +62,23 @@ def steered(mode):
     return Steered
 
 
-ROUTES = ["z3", "steer:hi", "steer:lo", "steer:minchange", "steer:maxchange",
+ROUTES = ["z3", "z3+timeout", "steer:hi", "steer:lo", "steer:minchange", "steer:maxchange",
           "fake:SugarBackend", "fake:SugarExtendedBackend", "fake:CSugarBackend", "fake:EnigmaCSPBackend", "fake:CspuzCoreBackend"]
 
 
 def backend_for(route, log=None):
-    if route == "z3":
+    import cspuz
+    # 'z3+timeout': config.solver_timeout is set to a tiny value; the z3 route ignores it by contract (it only bounds the
+    # external subprocess of the sugar back ends), so results must stay exact
+    cspuz.config.solver_timeout = 1e-6 if route == "z3+timeout" else None
+    if route in ("z3", "z3+timeout"):
         base = Z3Backend
     elif route.startswith("steer:"):
         base = steered(route[6:])
     else:
         base = sugartext.fake_backend(route[5:])
     if log is None:
-        return "z3" if route == "z3" else base
+        return "z3" if route in ("z3", "z3+timeout") else base
 
     class Rec(base):
         """records the sequence of models the oracle hands to Solver.solve (for deterministic replay)"""
@@ -316,12 +320,20 @@ def from_json(q):
 
 
 def replay(payload, verbose=False):
+    if _replay_once(payload, verbose, scripted=True):
+        return True
+    # the recorded model sequence only drives Solver.solve's own logic; a defect that lives in a back end's handling of the
+    # sequence (e.g. what it leaves in sol after an unsatisfiable reply) needs the original route
+    return _replay_once(payload, verbose, scripted=False)
+
+
+def _replay_once(payload, verbose, scripted):
     p = from_json(payload["program"])
     route = payload["route"]
     s, vs = build(p)
     sat, facts = exact_facts_bruteforce(p, vs)
     native = route.startswith("fake:") and route != "fake:SugarBackend"
-    if native or not payload.get("script"):
+    if native or not payload.get("script") or not scripted:
         be = backend_for(route)
     else:
         # deterministic: the oracle hands out the recorded (and re-verified) sequence of models
@@ -400,7 +412,7 @@ def run(tier, only=None):
         if tier == "thorough":
             routes = ROUTES
         else:
-            routes = ["z3", ROUTES[1 + i % 4], ROUTES[5 + i % 5]]
+            routes = ["z3", ROUTES[2 + i % 4], ROUTES[6 + i % 5]] + (["z3+timeout"] if i % 4 == 0 else [])
         for r in routes:
             if only and only not in r:
                 continue
